@@ -45,6 +45,7 @@ Proof.
   - (* LClose *) destruct (s_offer s); [discriminate|]. rframe Hs HR.
   - (* LRecv *)
     destruct (s_pc s) eqn:Epc; try discriminate. destruct (s_offer s) as [m|]; [|discriminate].
+    destruct (cstate_eqb (s_fsm s) CRunning && fsm_allowed (s_fsm s) CReloading); [|injection Hs as <-; exact HR].
     destruct (is_perm ord (keys (s_entries s))) eqn:Ep; [|discriminate]. injection Hs as <-.
     unfold acct_pc in Hpc. rewrite Epc in Hpc. destruct Hpc as (Hk & Hp & Hsp & Hsh).
     specialize (HR Hsh). unfold round_pc in HR. rewrite Epc in HR. destruct HR as ((M1 & M2 & M3 & M4 & M7) & HA).
@@ -55,7 +56,7 @@ Proof.
     + unfold mid. psimpl. apply mid_begin; try assumption; [apply new_entries_nodup| | |].
       * intros q e H. apply (M1 q e H). unfold ns. now rewrite (HA q e H).
       * intros q e H Hr. destruct (M4 q e H) as [[]|Hc]; [unfold ns; now rewrite (HA q e H)|exact Hr|exact Hc].
-      * intros j k c Hin. destruct (M7 j k c Hin) as (q & e & He & Hr & Hi & _). now exists q, e.
+      * intros j k c Hin. destruct (M7 j k c Hin) as (q & e & He & Hr & Hi & Hcf & _). exists q, e. repeat split; assumption.
   - (* LShut *)
     destruct (s_pc s) eqn:Epc; try discriminate.
     destruct (s_cancel s || s_stopreq s || s_closed s); [|discriminate]. injection Hs as <-.
@@ -109,12 +110,12 @@ Proof.
   - (* LFactory *)
     destruct (s_pc s) eqn:Epc; try discriminate. destruct (lookup k pend) as [e|] eqn:El; [|discriminate].
     destruct (mem_id k ts && id_eqb (e_id e) k && (e_cfg e =? c) && (i =? s_next s)) eqn:Ec; [|discriminate].
-    injection Hs as <-. apply andb_prop in Ec as [Ec Ei]. apply andb_prop in Ec as [Ec _]. apply andb_prop in Ec as [Ek Eid].
-    apply mem_id_in in Ek. apply id_eqb_eq in Eid.
+    injection Hs as <-. apply andb_prop in Ec as [Ec Ei]. apply andb_prop in Ec as [Ec Ecf]. apply andb_prop in Ec as [Ek Eid].
+    apply mem_id_in in Ek. apply id_eqb_eq in Eid. apply N.eqb_eq in Ecf.
     unfold acct_pc in Hpc. rewrite Epc in Hpc. destruct Hpc as (Hkk & Hp & Hsp & Hok & Hsh).
     destruct (Hok k Ek) as (e' & Hle & Hre & Hae). rewrite El in Hle. injection Hle as <-.
     intros E. psimpl in E. specialize (HR E). unfold round_pc, mid in *. rewrite Epc in HR. psimpl.
-    exact (mid_update _ _ _ _ _ _ _ k e i c HR El Hre Hae Eid).
+    exact (mid_update _ _ _ _ _ _ _ k e i c HR El Hre Hae Eid Ecf).
   - (* LFactoryErr *)
     destruct (s_pc s) eqn:Epc; try discriminate. destruct (lookup k pend) as [e|] eqn:El; [|discriminate].
     destruct (mem_id k ts && id_eqb (e_id e) k && (e_cfg e =? c)) eqn:Ec; [|discriminate].
@@ -167,7 +168,8 @@ Theorem round_converges d ls s :
                  lookup k (s_entries s) = Some (set_act ANone old)) /\
   (forall q e, lookup q (s_entries s) = Some e -> e_rt e = None -> s_cancel s = true) /\
   (forall j k c, In (j, (k, c)) (s_live s) ->
-                 exists e, lookup k (s_entries s) = Some e /\ e_rt e = Some j).
+                 exists e, lookup k (s_entries s) = Some e /\ e_rt e = Some j /\ e_cfg e = c /\
+                           dcfg (s_des s) k = Some c).
 Proof.
   intros Hr Epc. destruct (RInv_reachable d ls s Hr) as ((_ & _ & Hpc) & HR).
   unfold acct_pc in Hpc. rewrite Epc in Hpc. destruct Hpc as (_ & _ & _ & Hsh).
@@ -178,8 +180,9 @@ Proof.
   - intros q c H. destruct (M2 q c H) as [(e & He & _)|Hf]; [left; now exists e|now right].
   - exact M3.
   - intros q e H Hrt. destruct (M4 q e H (NS q e H) Hrt) as [[]|Hc]. exact Hc.
-  - intros j k c Hin. destruct (M7 j k c Hin) as (q & e & He & Hrt & Hi & _).
-    destruct (M1 q e He (NS q e He)) as [_ B]. rewrite Hi in B. subst q. now exists e.
+  - intros j k c Hin. destruct (M7 j k c Hin) as (q & e & He & Hrt & Hi & Hcf & _).
+    destruct (M1 q e He (NS q e He)) as [A B]. rewrite Hi in B. subst q. exists e.
+    repeat split; try assumption. now rewrite <- Hcf.
 Qed.
 
 Theorem count_exact_without_cancel d ls s :
@@ -193,4 +196,22 @@ Proof.
     destruct Hpc as (Hk & _). pose proof (in_lookup _ q e Hk Hin) as Hl. rewrite (R4 q e Hl Er) in Hc. discriminate. }
   split; [exact Hn|]. destruct (count_ok d ls s Hr) as (_ & Hcount); [now rewrite Epc|].
   rewrite Hcount, Hn. cbn [length]. lia.
+Qed.
+
+(* bounds that hold also after cancellation: at least the running servers, at most one entry per id of
+   the last received map *)
+Theorem count_bounds d ls s :
+  run (step true) (init d) ls = Some s -> s_pc s = PIdle ->
+  (length (s_live s) <= count (s_entries s) <= length (s_des s))%nat.
+Proof.
+  intros Hr Epc. split.
+  - destruct (count_ok d ls s Hr) as (_ & Hc); [now rewrite Epc|]. rewrite Hc. lia.
+  - destruct (round_converges d ls s Hr Epc) as (R1 & _).
+    destruct (acct_reachable d ls s Hr) as (_ & _ & Hpc). unfold acct_pc in Hpc. rewrite Epc in Hpc.
+    destruct Hpc as (Hk & _). unfold count.
+    rewrite <- (map_length fst (s_entries s)), <- (map_length fst (s_des s)).
+    apply NoDup_incl_length; [exact Hk|]. intros q Hq. apply mem_true in Hq. unfold mem in Hq.
+    destruct (lookup q (s_entries s)) as [e|] eqn:El; [|discriminate].
+    destruct (R1 q e El) as (Hd & _). unfold dcfg in Hd.
+    apply mem_true. unfold mem. destruct (lookup q (s_des s)); [reflexivity|discriminate].
 Qed.
